@@ -144,7 +144,7 @@ def run_cand_seg(x):
 def gen_namemap(args):
     sys.path.insert(0, os.path.join(os.path.dirname(os.path.abspath(__file__)), ".."))
     from vf import gen_namemap_data as G
-    vocab = G.VOCAB
+    vocab = G.VOCAB_E if args["req"] == "EDGE" else G.VOCAB
     for n in range(0, args["maxlen"] + 1):
         for cols in itertools.permutations(vocab, n):
             yield {"cols": list(cols), "table": args["table"], "req": args["req"]}
@@ -166,7 +166,13 @@ def run_namemap(x):
             f["display_name"] = f["value_names"][0]
             f["value_names"] = None
     feats["iou"] = {"feature_type": "edge", "num_values": 1, "display_name": "IoU"}
-    out = infer_node_name_map(list(x["cols"]), list(G.REQUIRED[x["req"]]), feats)
+    if x["req"] == "EDGE":
+        from funtracks.import_export._name_mapping import infer_edge_name_map
+        efeats = {"iou": {"feature_type": "edge", "num_values": 1, "display_name": "IoU"},
+                  "area": {"feature_type": "node", "num_values": 1, "display_name": "Area"}}
+        out = infer_edge_name_map(list(x["cols"]), efeats)
+    else:
+        out = infer_node_name_map(list(x["cols"]), list(G.REQUIRED[x["req"]]), feats)
     x["out"] = [[k, v if isinstance(v, list) else [v]] for k, v in out.items()]
     return x
 
